@@ -457,6 +457,26 @@ namespace hv
         }
     };
 
+    struct Timer1P
+    {   // as Timer1 but the only input is compile-time Passive: the node has no active input at all and is driven by its own schedule
+        static constexpr auto name = "hv_timer1p";
+        static void start(Scalar<"id", Int> id, NodeScheduler s, State<Int> n) { n.set(Int{0}); u_start(id.value()); timer_run_ops(id.value(), 0, s, true); }
+        static void stop(Scalar<"id", Int> id) { u_stop(id.value()); }
+        static void eval(In<"x", TS<Int>, InputActivity::Passive, InputValidity::Unchecked> x, Scalar<"id", Int> id, NodeScheduler s, DateTime now, State<Int> n, Out<TS<Int>> out)
+        {
+            InLog il;
+            il.add(x);
+            u_eval(id.value(), now, il.done());
+            ctx().faults.maybe_throw(id.value(), PH_EVAL);
+            n.set(n.get() + 1);
+            const long long k = n.get();
+            timer_run_ops(id.value(), k, s, false);
+            const long long v = norm(k * 1000 + (x.valid() ? static_cast<long long>(x.value()) : -1));
+            out.set(Int{v});
+            u_out(id.value(), now, v);
+        }
+    };
+
     struct Timer1V
     {   // as Timer1 but the input is required valid: never sampled while x holds no value
         static constexpr auto name = "hv_timer1v";
